@@ -1634,6 +1634,7 @@ fn run_case(case: &Case, rep: &mut Report, m: &mut Model, text_budget: &mut u64)
                     // what plain `select` answered on this engine: a derived strategy that merely repeats a wrong
                     // `select` answer is attributed to `select`'s class, not reported a second time
                     let sel_got: Option<Vec<u64>> = runs[0].1.as_ref().ok().cloned();
+                    let col_got: Option<Vec<u64>> = runs.iter().find(|r| r.0 == "columnar").and_then(|r| r.1.as_ref().ok().cloned());
                     if *ename == "all_indexes" {
                         eall_select = sel_got.clone();
                     }
@@ -1702,11 +1703,10 @@ fn run_case(case: &Case, rep: &mut Report, m: &mut Model, text_budget: &mut u64)
                     }
                     // the word-level model of the vectorised path (two extreme choices of the unspecified storage)
                     if is_model_engine {
-                        let col_got = e.select_columnar("t", ec.clone(), ColumnarScanOptions { projection: None, prefer_columnar: true }).map(|r| row_ids(&r));
                         let ma = m.ask(&format!("q columnarw {cm}"));
                         rep.case("model.columnar_words", None);
                         let imp = match &col_got {
-                            Ok(ids) if *ids == want => format!("{} ; {}", show_ids(ids), show_ids(ids)),
+                            Some(ids) if *ids == want => format!("{} ; {}", show_ids(ids), show_ids(ids)),
                             // the implementation already broke the property here: the model must still equal the oracle
                             _ => format!("{} ; {}", show_ids(&want), show_ids(&want)),
                         };
@@ -2173,6 +2173,62 @@ fn prefix_names_probe(rep: &mut Report) {
     }
 }
 
+/// JSON columns (not modelled): `Value::Json` equality is structural (`-0.0 == 0.0` inside a JSON number) while the
+/// hash bucket is the hash of the rendered text.  Recorded as an observation until triaged.
+fn json_probe(rep: &mut Report) {
+    use serde_json::json as j;
+    let mk = || {
+        let e = RelationalEngine::new();
+        e.create_table("t", Schema::new(vec![Column::new("j", ColumnType::Json).nullable()])).expect("create_table");
+        for v in [j!(-0.0), j!(0.0), j!({"a": -0.0}), j!([0.0]), j!(1), j!(1.0), j!("x"), j!(null), j!({"a": 0.0, "b": 1})] {
+            let _ = e.insert("t", HashMap::from([("j".to_string(), Value::Json(v))]));
+        }
+        e
+    };
+    let (plain, hashed, btree) = (mk(), mk(), mk());
+    let _ = hashed.create_index("t", "j");
+    let _ = btree.create_btree_index("t", "j");
+    let mut findings = Vec::new();
+    let mut n = 0;
+    for round in 0..2 {
+    if round == 1 {
+        // index maintenance through UPDATE / DELETE on the JSON column
+        for e in [&plain, &hashed, &btree] {
+            let _ = e.update("t", Condition::Eq("j".into(), Value::Json(j!("x"))), HashMap::from([("j".to_string(), Value::Json(j!(-0.0)))]));
+            let _ = e.delete_rows("t", Condition::Eq("j".into(), Value::Json(j!(1))));
+        }
+    }
+    for k in [j!(0.0), j!(-0.0), j!({"a": 0.0}), j!([-0.0]), j!(1.0), j!(1), j!("x"), j!(null)] {
+        for (name, c) in [
+            ("eq", Condition::Eq("j".into(), Value::Json(k.clone()))),
+            ("ne", Condition::Ne("j".into(), Value::Json(k.clone()))),
+            ("le", Condition::Le("j".into(), Value::Json(k.clone()))),
+            ("gt", Condition::Gt("j".into(), Value::Json(k.clone()))),
+        ] {
+            let want = plain.select("t", c.clone()).map(|r| row_ids(&r)).unwrap_or_default();
+            for (ename, e) in [("hash_index", &hashed), ("btree_index", &btree)] {
+                n += 1;
+                let got = e.select("t", c.clone()).map(|r| row_ids(&r)).unwrap_or_default();
+                let cnt = e.count("t", c.clone()).unwrap_or(u64::MAX);
+                if got != want || cnt != want.len() as u64 {
+                    findings.push(json!({"cond": format!("{name} j {k}"), "engine": ename, "after_update_delete": round == 1, "scan": want, "indexed": got, "indexed_count": cnt}));
+                }
+            }
+        }
+    }
+    }
+    rep.hit_n("json_probe.queries", n);
+    if !findings.is_empty() {
+        rep.hit_n("json_probe.strategy_dependent", findings.len() as u64);
+        rep.observe(json!({
+            "what": "JSON column (outside the model): a query answered differently with an index than by the full scan",
+            "class_if_in_scope": "relational_engine.hash_index/json_negative_zero_missed",
+            "rows": ["-0.0", "0.0", "{\"a\":-0.0}", "[0.0]", "1", "1.0", "\"x\"", "null", "{\"a\":0.0,\"b\":1}"],
+            "differences": findings,
+        }));
+    }
+}
+
 /// One store, two engine objects (what `QueryRouter::with_shared_store` + a second `with_store` gives).
 /// Outside the op-sequence quantifier of the property; reported as an observation, not a violation.
 fn reopen_probe(rep: &mut Report) {
@@ -2222,6 +2278,7 @@ fn main() {
     depth_rows(&mut rep, &mut m, &mut root.fork("depth_rows"), if args.thorough { 20_000 } else { 2_500 });
     depth_engine(&mut rep, &mut m, &mut root.fork("depth_engine"), if args.thorough { 2_000 } else { 120 });
     prefix_names_probe(&mut rep);
+    json_probe(&mut rep);
     reopen_probe(&mut rep);
     rep.expected_branches = ["br.select.hash", "br.select.btree", "br.select.scan", "br.columnar.vec", "br.columnar.scan", "br.columnar.hash", "br.columnar.btree"]
         .iter()
